@@ -3,6 +3,7 @@ import Heph.Proofs.ClosedSites
 import Heph.Proofs.ClosedFuel
 import Heph.Proofs.ClosedPool
 import Heph.Proofs.ClosedAssignable
+import Heph.Proofs.CaptureSound
 import Heph.Generated.Keywords
 import Heph.Model.Reserved
 /-!
@@ -37,7 +38,7 @@ Trusted for the keyword theorems: `harness/regen_c05.py` (that `collisionWords` 
 `src/resources/words` equal to a keyword up to case, and that every entry is `[a-z]+`) — `WordFileFacts`.
 -/
 namespace Heph.Props.C05
-open Heph Heph.Scope Heph.Pool Heph.Keywords Heph.Assignable
+open Heph Heph.Scope Heph.Pool Heph.Keywords Heph.Assignable Heph.Capture
 
 /-! ## the scope walker -/
 
@@ -158,6 +159,71 @@ example : closedCheck progUnresolved [] = .error "/var:x/variable:y" "unresolved
 example : closedCheck progArity [] = .error "/var:x/call:f" "arity:function:f:0" := by decide
 example : closedCheck progJavaCapture [] = .error "/func:f/var:l/lambda/variable:v" "java-lambda-captures-nonfinal:v" := by decide
 example : closedCheck { progJavaCapture with lang := "kotlin" } [] = .ok := by decide
+
+/-! ## Java: what a lambda / nested function may capture (javac's reading: effectively final) -/
+
+/-- acceptance by `captureCheck` implies the capture rule: at every site inside a Java lambda or nested function, a
+    referenced (or called) local of an enclosing function body is declared `final` or is never assigned anywhere, and no
+    assignment targets such a local — every program -/
+theorem capture_sound (p : Program) : captureCheck p = .ok → CapturesOK p := Heph.Capture.capture_sound p
+
+/-- and `captureCheck` rejects no program that satisfies the rule -/
+theorem capture_complete (p : Program) : CapturesOK p → captureCheck p = .ok := Heph.Capture.capture_complete p
+
+/-- a rejection names a site of the program that breaks the rule -/
+theorem captureCheck_error (p : Program) (path why : String) :
+    captureCheck p = .error path why →
+    ∃ s ∈ programSites p, s.path = path ∧ ¬ CaptureOK (assignedNames (programSites p)) s.env s.use :=
+  Heph.Capture.captureCheck_error p path why
+
+/-- the generator's rule (`_inside_java_lambda`: only parameters and `final` locals are captured, nothing outside the
+    lambda is assigned — the clauses of `Closed`) implies javac's, as long as no assigned name is a parameter's -/
+theorem closed_capturesOK (p : Program) (kw : List String) (hc : Closed p kw)
+    (hparams : ∀ s ∈ programSites p, ∀ x, ∀ r, (visibleVars s.env x).head? = some r → isParamDecl r.decl = true →
+      declName r.decl ∉ assignedNames (programSites p)) : CapturesOK p :=
+  Heph.Capture.closed_capturesOK p kw hc hparams
+
+/-- `f` declares `var v`, `val w`; the lambda reads `v`; a second lambda nested in a nested function assigns `v` -/
+def progJavaReassigned : Program :=
+  { lang := "java", context := [],
+    decls := [.funcDecl "f" [] none none
+      (some (.block [.varDecl "v" (.intC "1" none) false none none,
+                     .varDecl "w" (.intC "2" none) true none none,
+                     .varDecl "l" (.lambda "l" [] none (.variable "v") none) true none none,
+                     .assign "v" (.variable "w") none] true)) false false [] 1] }
+
+def progJavaAssignInLambda : Program :=
+  { lang := "java", context := [],
+    decls := [.funcDecl "f" [.paramDecl "a" (.simple "Int" []) false none] none none
+      (some (.block [.varDecl "v" (.intC "1" none) false none none,
+                     .funcDecl "g" [] none none
+                       (some (.block [.varDecl "k" (.lambda "k" [] none (.variable "a") none) true none none,
+                                      .assign "v" (.intC "3" none) none] true)) false false [] 1] true))
+      false false [] 1] }
+
+/-- the two readings differ exactly on a non-final local that is never re-assigned: the generator's rule rejects it
+    (`closedCheck`, above), javac's accepts it -/
+example : captureCheck progJavaCapture = .ok := by decide
+example : CapturesOK progJavaCapture := capture_sound _ (by decide)
+/-- … and once the local is re-assigned (anywhere) the read inside the lambda is an error -/
+example : captureCheck progJavaReassigned
+    = .error "/func:f/var:l/lambda/variable:v" "java-lambda-reads-reassigned-local:v" := by decide
+example : ¬ CapturesOK progJavaReassigned := fun h => by have := capture_complete _ h; revert this; decide
+/-- an assignment inside a nested function (after a lambda in it was finished) to a local of the enclosing function -/
+example : captureCheck progJavaAssignInLambda
+    = .error "/func:f/func:g/assign:v" "java-lambda-assigns-captured-local:v" := by decide
+/-- the rule is Java's only -/
+example : captureCheck { progJavaAssignInLambda with lang := "kotlin" } = .ok := by decide
+/-- the hypotheses of `closed_capturesOK` are satisfiable by a program with a capture: `progOk` in Java, its function
+    nested so that the parameter `a` … is read across no boundary; and a Java program capturing a `final` local -/
+def progJavaFinalCapture : Program :=
+  { lang := "java", context := [],
+    decls := [.funcDecl "f" [.paramDecl "a" (.simple "Int" []) false none] none none
+      (some (.block [.varDecl "w" (.intC "2" none) true none none,
+                     .varDecl "u" (.intC "2" none) false none none,
+                     .varDecl "l" (.lambda "l" [] none (.binop "arith" (.variable "w") (.variable "a") "+") none) true none none,
+                     .assign "u" (.variable "w") none] true)) false false [] 1] }
+example : closedCheck progJavaFinalCapture [] = .ok ∧ captureCheck progJavaFinalCapture = .ok := by decide
 
 /-! ## the assignment filter -/
 
